@@ -212,3 +212,14 @@ fn reference() {
     assert_eq!(q.len(), 20);
     assert_almost_eq!(q.quantile(), 4.2462394088036435, 2e-15);
 }
+
+#[cfg(feature = "verif-hooks")]
+#[doc(hidden)]
+impl Quantile {
+    pub fn __verif_from_parts(q: [f64; 5], n: [i64; 5], m: [f64; 5], dm: [f64; 5]) -> Quantile {
+        Quantile { q, n, m, dm }
+    }
+    pub fn __verif_parts(&self) -> ([f64; 5], [i64; 5], [f64; 5], [f64; 5]) {
+        (self.q, self.n, self.m, self.dm)
+    }
+}
